@@ -16,7 +16,7 @@ import (
 //
 // case : (rp (opt ...) (stmt ...) ((id (op ...)) ...) (req ...))
 // opt  : (na) | (strict) | (onpanic (op ...)) | (onerror (op ...)) | (twin)
-// stmt : (use id ...) | (group 'prefix (id ...) (stmt ...)) | (route ('M ...) 'path main (var ...) (later ...) 'name)
+// stmt : (use id ...) | (group 'prefix (id ...) (stmt ...)) | (route ('M ...) 'path main (var ...) (later ...) 'name [add|pre])   pre: NewRoute(..).Use(var..) then AddRoute
 //        | (nf id ...) | (nal id ...)
 // op   : (ev n) (next) (abort) (abortthen) (abs code) (isab) (panic n) (w <wop>) (sd 'k v) (ae n) (sp 'k 'v) (rr) (rq) (snap)
 // req  : ('METHOD 'path (script n ...))
@@ -193,6 +193,21 @@ func (e *rpEnv) stmts(ss []Sx) {
 			meths := s.List[1].Strs()
 			main := e.handlers(s.List[3:4])[0]
 			var rt *rux.Route
+			if len(s.List) > 7 && s.List[7].Atom == "pre" {
+				// the route brings its own middleware when it is added
+				if name := s.List[6].Str(); name != "" {
+					rt = rux.NewNamedRoute(name, s.List[2].Str(), main, meths...)
+				} else {
+					rt = rux.NewRoute(s.List[2].Str(), main, meths...)
+				}
+				rt.Use(e.handlers(s.List[4].Lst())...)
+				e.r.AddRoute(rt)
+				if later := s.List[5].Lst(); len(later) > 0 {
+					rt.Use(e.handlers(later)...)
+				}
+				e.routes = append(e.routes, rt)
+				continue
+			}
 			if name := s.List[6].Str(); name != "" {
 				rt = e.r.AddNamed(name, s.List[2].Str(), main, meths...)
 			} else {
